@@ -299,11 +299,11 @@ def run(ctx):
     meta = []
     # 2. spec -> code: TLC-generated behaviours replayed into the real objects
     depth = 24
-    nbeh = 150 if quick else 1500
+    nbeh = 150 if quick else 600
     gcfg = os.path.join(ctx.work, 'Gen_SymTab_run.cfg')
     with open(gcfg, 'w') as fh:
         fh.write(f'SPECIFICATION GSpec\nCONSTANT GenDepth = {depth}\nCHECK_DEADLOCK FALSE\n')
-    r = ctx.tlc('Gen_SymTab', gcfg, simulate=f'num={nbeh}', depth=depth + 3, seed=ctx.seed + 17, timeout=900)
+    r = ctx.tlc('Gen_SymTab', gcfg, simulate=f'num={nbeh}', depth=depth + 3, seed=ctx.seed + 17, timeout=2400)
     behs = [json.loads(v[1]) for v in r.prints('BEHAVIOUR')]
     if len(behs) < nbeh * 0.9:
         raise MachineryError(f'Gen_SymTab produced {len(behs)} behaviours, expected {nbeh}\n{r.tail()}')
